@@ -28,6 +28,14 @@ CLAIMED = {
          "Signature help at every cursor: known function, parameter list = fixed ++ variadic, active index valid.",
          "Function set is the catalogue's (0..2 fixed parameters, variadic, namespaced, parameterless).",
          "DESIGN.md §6 C20"),
+ "C03": ("model_checking", "deviation-bounded choice-point DFS over map-iteration orders on the instrumented real code (E3) + query-history pairs + fresh-decoder differential",
+         "Every range-over-map in the library is rewritten (at check time, by overlay) into a choice point; for every world and query all choice vectors within the deviation bound are executed and the canonical result must equal the canonical-order result; histories: every query repeated after all others, all ordered pairs of representative queries vs a fresh decoder; decoder rebuilt with reversed insertion order.",
+         "Map iteration inside hcl/cty/stdlib is not behind the seam; permutation alphabet for n>4 keys is a stated subset.",
+         "DESIGN.md §6 C03"),
+ "C04": ("model_checking", "explicit-state search over query histories (E4) with a deep state hash, plus a statement-level write barrier in the instrumented build",
+         "State = canonical deep hash of everything reachable from the path contexts, decoder context and package variables; every entry point at every position is a transition; successor must equal predecessor (closed 1-state graph => all histories); every executed write statement is probed against registered caller-owned memory; derived schemas are checked for container aliasing and mutation leaks.",
+         "Writes inside hcl/cty/stdlib are covered by the value snapshot only; 16 append sites whose operand is a call result are not probed (they append to fresh copies).",
+         "DESIGN.md §6 C04"),
  "C14": ("fault_enumeration", "bounded-exhaustive enumeration of files (AST as oracle) and of every subset of failing path readers",
          "Document symbols of every file compared one-to-one with an independent walk of the syntax tree; workspace symbols for worlds of 1..4 paths under every subset of unreadable / unlisted paths and every query substring.",
          "The hclsyntax tree is the oracle for what is written; the PathReader is ours and injects the faults.",
